@@ -250,9 +250,14 @@ def translate(pins=None, write_pins=False):
     guards = [n for n in ast.walk(ex) if isinstance(n, ast.If) and src(n.test) == "not self._dryrun"]
     rb = [(g, c) for g in guards for c in ast.walk(g) if isinstance(c, ast.Call) and src(c.func) == "self._perform_rollbacks"]
     all_rb = _stmt_lines(ex, lambda c: src(c.func) == "self._perform_rollbacks")
-    if len(rb) != 1 or len(all_rb) != 1 or not rb[0][1].lineno > gcl[0] or [src(a) for a in rb[0][1].args] != ["args", "kwargs"]:
+    # the call must be an unconditional statement of the `if not self._dryrun:` body (seeded change C25a put it
+    # under a further cache_scope test: jobs that opt out of the backend cache then derive states without rollback)
+    direct = [g for g in guards for st in g.body if isinstance(st, ast.Expr) and isinstance(st.value, ast.Call)
+              and src(st.value.func) == "self._perform_rollbacks"]
+    if (len(rb) != 1 or len(all_rb) != 1 or len(direct) != 1 or not rb[0][1].lineno > gcl[0]
+            or [src(a) for a in rb[0][1].args] != ["args", "kwargs"]):
         fail("_exec_job_main_thread: expected exactly one `self._perform_rollbacks(args, kwargs)` under "
-             "`if not self._dryrun:` after the cache look-up", ex)
+             "`if not self._dryrun:` (unconditionally, as a statement of that body) after the cache look-up", ex)
     cached_ifs = [n for n in ast.walk(ex) if isinstance(n, ast.If) and src(n.test) == "job.was_cached"
                   and n.lineno > gcl[0] and n.lineno < rb[0][1].lineno]
     def always_returns(body):
